@@ -29,17 +29,27 @@ def r1(chk):
         raise Inconclusive("replace_tilde_or_at_in_expr: expected (input, at, tilde)")
     inp, at, tilde = params
     fes = [m for m in method_calls(fi.body, "for_each") if m["args"] and m["args"][0]["k"] == "Closure"]
-    if len(fes) != 1:
-        raise Inconclusive("replace_tilde_or_at_in_expr: expected one for_each(closure) over the input tokens")
-    src = render(fes[0]["recv"]).replace(" ", "")
-    chk.expect("R1", "iteration", src in (f"{inp}.clone().into_iter()", f"{inp}.into_iter()"), EXPAND, fes[0]["line"],
-               "tokens are not visited all and in order", expected=f"{inp}.clone().into_iter()", found=src)
-    cl = fes[0]["args"][0]
-    pushes = [m for m in method_calls(cl["body"], "push")]
-    chk.expect("R1", "one-push-per-token", len(pushes) == 1, EXPAND, cl["line"], "each visited token must be appended exactly once", found=len(pushes))
-    tail = fi.body["stmts"][-1]
-    tail_src = render(tail.get("expr")).replace(" ", "") if tail["k"] == "ExprStmt" else ""
-    chk.expect("R1", "result", tail_src == "TokenStream::from_iter(tokens)", EXPAND, tail["line"], "result is not the in-order concatenation of the rewritten tokens", found=tail_src)
+    mps = [m for m in method_calls(fi.body, "map") if m["args"] and m["args"][0]["k"] == "Closure" and re.search(r"\b" + re.escape(inp) + r"\b", render(m["recv"]))]
+    if len(fes) == 1 and not mps:
+        form, site = "for_each", fes[0]
+    elif len(mps) == 1 and not fes:
+        form, site = "map", mps[0]
+    else:
+        raise Inconclusive("replace_tilde_or_at_in_expr: expected one for_each(closure) or one map(closure) over the input tokens")
+    src = render(site["recv"]).replace(" ", "")
+    chk.shape("R1", "iteration", src in (f"{inp}.clone().into_iter()", f"{inp}.into_iter()"), bool(re.search(r"\.(skip|take|rev|filter|step_by|skip_while|take_while)\(", src)), EXPAND, site["line"],
+              what="tokens are not visited all and in order", expected=f"{inp}.clone().into_iter()", found=src)
+    cl = site["args"][0]
+    if form == "for_each":
+        pushes = [m for m in method_calls(cl["body"], "push")]
+        chk.expect("R1", "one-push-per-token", len(pushes) == 1, EXPAND, cl["line"], "each visited token must be appended exactly once", found=len(pushes))
+        tail = fi.body["stmts"][-1]
+        tail_src = render(tail.get("expr")).replace(" ", "") if tail["k"] == "ExprStmt" else ""
+        chk.shape("R1", "result", tail_src == "TokenStream::from_iter(tokens)", False, EXPAND, tail["line"], what="result is not the in-order concatenation of the rewritten tokens", found=tail_src)
+    else:
+        whole = render(fi.body["stmts"][-1].get("expr") or fi.body["stmts"][-1]).replace(" ", "")
+        chk.shape("R1", "result", whole.endswith(".collect()") or whole.endswith(".collect::<TokenStream>()") or "TokenStream::from_iter(" in whole, False, EXPAND, site["line"],
+                  what="result is not the in-order concatenation of the rewritten tokens", found=whole[-80:])
 
     def mk():
         return Evaluator(repo, IMPL_FILES, opaque={"replace_tilde_or_at_in_expr"})
@@ -48,7 +58,9 @@ def r1(chk):
         env = ev.sym_params(fi)
         env["tokens"] = ListV([])
         c = Clos(cl["params"], cl["body"], env, ev)
-        ev.call_closure(c, [SymObj("x", ("named", "TokenTree"))])
+        r_ = ev.call_closure(c, [SymObj("x", ("named", "TokenTree"))])
+        if form == "map":
+            return ListV([r_ if isinstance(r_, Toks) else Toks(ev.to_toks(r_))])
         return env["tokens"]
 
     leaves = explore(mk, run)
@@ -59,7 +71,7 @@ def r1(chk):
         d = lf.decisions
         x = d.get("x")
         if lf.panic or lf.unsupported or not isinstance(lf.value, ListV) or len(lf.value.elems) != 1 or not isinstance(lf.value.elems[0], Toks):
-            chk.bad("R1", f"cell[{x}]", EXPAND, cl["line"], "cell not evaluable or does not push one token stream", found=str(lf)[:160])
+            chk.inconc("R1", f"cell[{x}]: cell not evaluable or does not yield one token stream: " + str(lf)[:160])
             continue
         out = lf.value.elems[0].toks
         if x == "Group":
@@ -91,6 +103,8 @@ def r1(chk):
             chk.expect("R1", key, out == [("sym", "x")], EXPAND, cl["line"], "identifiers and literals must be re-emitted unchanged", expected="‹x›", found=show_toks(out))
     want = {"cell[Group,Parenthesis]", "cell[Group,Brace]", "cell[Group,Bracket]", "cell[Group,None]", "cell[Punct,~]", "cell[Punct,@]", "cell[Punct,other]", "cell[Ident]", "cell[Literal]"}
     for k in sorted(want - seen):
+        if any(r_ == "R1" for r_, _w in chk.inconclusive):
+            break  # some cell was not evaluable: which cells are missing is then not decidable
         chk.bad("R1", k, EXPAND, cl["line"], "cell of the token-tree domain is not covered")
 
 
@@ -314,3 +328,27 @@ def run(chk):
     chk.guard("R2", lambda: r2(chk))
     chk.guard("R3", lambda: r3(chk))
     chk.guard("R4", lambda: r4(chk))
+
+    def r5():
+        # what `~` and `@` are replaced WITH is chosen by the callers of quote_action (the line / arm renderers): the cells of the struct line
+        # table (C01.R1) and of the enum arm table (C02.R1) that carry an inline expression are imported
+        from ..core import Check
+        from . import c01, c02
+        chk.rule("R5", "every rendered line / arm with an inline expression passes the designated substitutes (@ = source value, ~ = @ + counterpart member path / payload binding)", floor=20)
+        from ..core import load_known
+        recorded = {(e["property"], e["key"]) for e in load_known() if e.get("status") == "known"}
+        for mod, fn_, pid in ((c01, "r1_r2", "C01"), (c02, "r1", "C02")):
+            sub = Check(pid, chk.repo, chk.tier)
+            sub.guard("R1", lambda: getattr(mod, fn_)(sub))
+            for r_, why in sub.inconclusive:
+                if r_ == "R1":
+                    chk.inconc("R5", why)
+            for i in sub.instances:
+                if i.rule == "R1" and "action=Some" in i.key:
+                    if i.ok:
+                        chk.ok("R5", f"{pid}:" + i.key, i.file, i.line)
+                    elif (pid, i.key) in recorded:
+                        continue  # a defect already recorded (and printed) under the property whose table it belongs to
+                    else:
+                        chk.bad("R5", f"{pid}:" + i.key, i.file, i.line, i.what, i.expected, i.found)
+    chk.guard("R5", r5)
